@@ -156,10 +156,11 @@ for _np, _ng, _tiers in ((3, 4, ('quick', 'thorough')), (4, 6, ('thorough',))):
 
 
 # ---------------------------------------------------------------- C16.e.rot (derived grids of a ROTATED 2-D grid: harness/C16/derived_rot.cpp)
-for _tag, _defs, _dom in (('', {'VF_ISO': 1}, 'the same factor nmult in 1..3 in both directions'),
-                          ('.aniso', {}, 'different factors nmult[0] != nmult[1], each in 1..3')):
-    K('C16.e.rot' + _tag, property='C16', engine='symex', harness='C16/derived_rot.cpp', entries=['k_rot_multiple', 'k_rot_divider'], tus=_ROTTUS,
-      defines={'all': _defs}, symex_opts=_trig_opts, symex={'libm_exact': {'cos': _cos_native, 'sin': _sin_native}},
+for _tag, _pairs, _dom in (('', ('11', '22', '33'), 'the same factor nmult = 1, 2, 3 in both directions'),
+                           ('.aniso', ('12', '13', '21', '23', '31', '32'), 'every pair of different factors nmult[0] != nmult[1] in 1..3')):
+    K('C16.e.rot' + _tag, property='C16', engine='symex', harness='C16/derived_rot.cpp',
+      entries=['k_rot_%s_%s' % (f, p) for p in _pairs for f in ('multiple', 'divider')], tus=_ROTTUS,
+      symex_opts=_trig_opts, symex={'libm_exact': {'cos': _cos_native, 'sin': _sin_native}},
       bounds={'quick': 'ndim = 2; rotation angle an arbitrary real in (-360, 360) degrees; x0, dx > 0 arbitrary reals; nx[d] in [1,1024]; %s; cell and point matching; '
                        'every coarse node index in [0,1024]^2 / every sub-cell of every parent cell index in [0,1024]^2' % _dom},
       timeout_ms={'quick': 60000, 'thorough': 600000}, validate={'quick': 20, 'thorough': 40}, validate_doubles='dyadic',
